@@ -840,3 +840,27 @@ func enclosingFor(root ast.Node, node ast.Node) *ast.ForStmt {
 	})
 	return found
 }
+
+// copyCases is valueCases restricted to variables that only ever hold plain
+// copies and constants (pos = -1; pos = a): a variable that is computed is
+// its own value.
+func copyCases(g *core.Graph, at *core.V, e ast.Expr) []vcase {
+	cs := valueCases(g, at, e, 1)
+	for _, c := range cs {
+		if c.V == at {
+			continue
+		}
+		x := ast.Unparen(c.Expr)
+		if u, ok := x.(*ast.UnaryExpr); ok {
+			x = ast.Unparen(u.X)
+		}
+		switch x.(type) {
+		case *ast.Ident, *ast.BasicLit:
+		default:
+			if _, isConst := core.IntConst(g.Info, c.Expr); !isConst {
+				return []vcase{{e, at}}
+			}
+		}
+	}
+	return cs
+}
